@@ -19,7 +19,7 @@ SAMPLES = [
 PIECES = [b"wire", b"const", b"register", b" ", b"\n", b"\r\n", b"\r", b"\t", b";", b":", b"=", b"==", b"[", b"]", b"{", b"}", b"(", b")",
           b"..", b",", b"0x", b"0b", b"0b102", b"12ab", b"/*", b"*/", b"//", b"#", b"x", b"Stat", b"pc", b"\xc3\xa9", b"\xe2\x82\xac",
           b"\xff", b"\xc3", b"\xe2\x82", b"\xc2\xa0", b"\xe2\x80\xa8", b"\xe3\x80\x80", b"\xc2\x85", b"\xf0\x9f\x98\x80", b"\x00", b"\xef\xbb\xbf", b"340282366920938463463374607431768211456",
-          b"&&", b"||", b"!", b"~", b"<<", b"in", b"1", b"0", b"\"", b"'", b"$", b"@", b"\\"]
+          b"&&", b"||", b"!", b"~", b"<<", b"in", b"1", b"0", "\u00b2".encode(), "\u0663".encode(), "\u00bd".encode(), "\u2167".encode(), b"\"", b"'", b"$", b"@", b"\\"]
 
 
 def gen(rnd):
